@@ -93,6 +93,7 @@ import (
 	"path/filepath"
 	"slices"
 	"strings"
+	"sync/atomic"
 	"time"
 
 	"github.com/bartventer/httpcache/store"
@@ -409,20 +410,42 @@ func (c *fsCache) set(key string, entry []byte) error {
 		}
 	}
 	name := c.fn.FileName(key)
-	if err := c.root.MkdirAll(filepath.Dir(name), 0o755); err != nil {
+	dir := filepath.Dir(name)
+	if err := c.root.MkdirAll(dir, 0o755); err != nil {
 		return err
 	}
-	f, err := c.root.Create(name)
+	// Write to a temporary file in the same directory, then rename it over the entry, so that a
+	// reader (or a crash, or a full disk) never sees a partially written value.
+	tmp := filepath.Join(dir, fmt.Sprintf("%s%d-%d", tmpPrefix, os.Getpid(), tmpSeq.Add(1)))
+	f, err := c.root.Create(tmp)
 	if err != nil {
 		return err
 	}
-	defer f.Close()
-	_, err = f.Write(entry)
-	if err != nil {
+	fail := func(err error) error {
+		_ = f.Close()
+		_ = c.root.Remove(tmp)
 		return err
 	}
-	return f.Sync()
+	if _, err := f.Write(entry); err != nil {
+		return fail(err)
+	}
+	if err := f.Sync(); err != nil {
+		return fail(err)
+	}
+	if err := f.Close(); err != nil {
+		return fail(err)
+	}
+	if err := c.root.Rename(tmp, name); err != nil {
+		return fail(err)
+	}
+	return nil
 }
+
+// tmpPrefix marks files that are being written; '.' is not in the base64url alphabet, so such a
+// name can never be the file name of a key.
+const tmpPrefix = ".tmp-"
+
+var tmpSeq atomic.Uint64
 
 func (c *fsCache) Delete(key string) error {
 	ctx, cancel := context.WithTimeout(context.Background(), c.timeout)
@@ -493,6 +516,9 @@ func (c *fsCache) keys(prefix string) ([]string, error) {
 		}
 		if d.IsDir() {
 			return nil
+		}
+		if strings.HasPrefix(d.Name(), tmpPrefix) {
+			return nil // a value that is being written, or was left behind by a crash
 		}
 		key, err := c.fnk.KeyFromFileName(
 			strings.TrimPrefix(path, dirname+string(os.PathSeparator)),
